@@ -256,6 +256,14 @@ func RunC10(tier string) int {
 			{"the same, second one discovered as a dependency", World{Pkgs: []WPkg{{Addr: P1, Files: ro, NilMeta: true}, {Addr: P4, Content: P1, Files: ro, NilMeta: true}},
 				Edges: []WEdge{{Content: P1, Loc: "", Finder: "F1", Kind: "remote", Target: P4, TFinder: "F1"}}}, []AddCall{{Kind: "remote", Addr: P1, Finder: "F1"}}},
 		}
+		// an ignored directory the user cannot empty (a read-only sub-directory), holding a link that leaves the bundle:
+		// however the removal is attempted, the file the link names must keep its content, mode and times
+		roOut := []TNode{{Path: ".terraformignore", Kind: "file", Body: "vendor/\n"}, {Path: "vendor/keep", Kind: "file", Body: "k"}, {Path: "vendor/ro", Kind: "dir", Mode: 0555},
+			{Path: "vendor/ro/out", Kind: "link", Target: "<AROUND>/sibling/canary"}, {Path: "vendor/ro/data", Kind: "file", Body: "d"}}
+		roOut2 := []TNode{{Path: ".terraformignore", Kind: "file", Body: "vendor/\n"}, {Path: "vendor/ro", Kind: "dir", Mode: 0555}, {Path: "vendor/ro/up", Kind: "link", Target: "../../../../sibling"}}
+		ujs = append(ujs,
+			uj{"an ignored directory with a read-only sub-directory holding a link to a file outside the bundle", World{Pkgs: []WPkg{{Addr: P1, Files: roOut, NilMeta: true}}}, []AddCall{{Kind: "remote", Addr: P1, Finder: "F1"}}},
+			uj{"an ignored directory with a read-only sub-directory holding a link to a directory outside the bundle", World{Pkgs: []WPkg{{Addr: P1, Files: roOut2, NilMeta: true}}}, []AddCall{{Kind: "remote", Addr: P1, Finder: "F1"}}})
 		uargs := make([]BuildArg, len(ujs))
 		upool.Map("build", len(ujs), func(i int) any {
 			uargs[i] = BuildArg{World: ujs[i].w, Adds: ujs[i].adds, Probes: []string{P1}, Trace: true}
@@ -271,6 +279,9 @@ func RunC10(tier string) int {
 			core.MustOut(r, &out)
 			if out.SetupErr != "" {
 				core.Fatalf("C10 uid part: %s", out.SetupErr)
+			}
+			if len(out.Outside) > 0 {
+				rep.Violation("sourcebundle.Builder/touched-outside-target", fmt.Sprintf("%s :: changes outside the target directory: %s", desc, strings.Join(out.Outside, "; ")), "build", uargs[i])
 			}
 			if out.Bundle == nil {
 				rep.Outcome("build-refused(uid 65534)")
